@@ -46,9 +46,7 @@ class LoopMixin:
     def havoc(self, st, names, fields, spec, node, alloc=False):
         h = st.copy()
         if alloc:
-            a0 = st.alloc if st.alloc is not None else z3.Const("alloc0", z3.ArraySort(T.RefSort, z3.BoolSort()))
-            h.alloc = z3.Const(fresh_name("alloc"), a0.sort())
-            h.assume(z3.IsSubset(a0, h.alloc))  # objects are never deallocated
+            self.advance_clock(h)  # objects are never deallocated: the clock only moves forward
         for n in sorted(names):
             v = st.env.get(n)
             if v is None:
